@@ -23,7 +23,8 @@ LEVEL_TEXT = ('Each law (group axioms of Orientation, linear + isometric action 
               'positions, grid rotation preserving the multiset and identities of objects and undone by the inverse rotation, '
               'get_next_position = pose algebra) is evaluated with both sides computed by the real operators: exhaustively over '
               'all orientation triples and coordinates in [-3,3], and on random integers up to +-10^18 and beyond 64 bits, areas '
-              'with negative corners, grid shapes 1x1..6x7. Universally quantified over unbounded integers: held on K instances.')
+              'with negative corners, grid shapes 1x1..6x7. Universally quantified over unbounded integers: held on K instances.'
+              ' Also: spanned areas, rotations leave their operand and earlier results alone, products with instances of user subclasses have the value of the plain product.')
 LEVEL_NOTE = ('No claim beyond the instances evaluated. The reference for get_next_position and the heading tables are the '
               'harness\' own (refmodel.py).')
 SHARDS = {'quick': 2, 'thorough': 8}
